@@ -190,6 +190,18 @@ impl GenerationPass for AvailableValuePass {
                     AvailableValueMap::new()
                 } else {
                     let mut map = node.memory_values_in();
+                    // A store to a known stack slot replaces what the slot held; a byte or
+                    // half-word store replaces part of it and leaves nothing known.
+                    if let ParserNode::Store(store) = node.node() {
+                        if store.rs1.get().is_stack_pointer() {
+                            if let Some(curr_stack) = node.reg_values_in().stack_offset() {
+                                let slot = MemoryLocation::StackOffset(
+                                    curr_stack.wrapping_add(store.imm.get().value()),
+                                );
+                                map.retain(|location, _| *location != slot);
+                            }
+                        }
+                    }
                     if let Some((MemoryLocation::StackOffset(offset), value)) =
                         node.gen_memory_value()
                     {
